@@ -269,6 +269,11 @@ func (bp *BoundsProver) dbmForC(cn *Canon, at ssa.Instruction, exprs ...lin) *DB
 		for b, lo := range cn.lower {
 			d.add("", b, -lo, "counter φ: every incoming value is a constant >= "+fmt.Sprint(lo)+" or the counter plus a non-negative step")
 		}
+		for b, hi := range cn.upper {
+			if hi.base != b {
+				d.addRel(lin{b, 0}, token.LEQ, hi, "down-counter φ: starts at "+linStr(hi)+" and every other incoming value is the counter minus a non-negative step")
+			}
+		}
 	}
 	var bases []string
 	for _, e := range exprs {
@@ -365,7 +370,11 @@ func (bp *BoundsProver) ProveNonNeg(at ssa.Instruction, v ssa.Value) (bool, stri
 	if d.proves(lin{"", 0}, token.LEQ, l) {
 		return true, "0 <= " + linStr(l) + " from: " + strings.Join(relevant(d, l), "; ")
 	}
-	return false, "no dominating fact gives 0 <= " + linStr(l)
+	ok, why := nonNegPathwise(at, v)
+	if ok {
+		return true, "0 <= " + linStr(l) + ": " + why
+	}
+	return false, "no dominating fact gives 0 <= " + linStr(l) + " (path-wise: " + why + ")"
 }
 
 func (bp *BoundsProver) ProveNonZero(at ssa.Instruction, v ssa.Value) (bool, string) {
@@ -382,6 +391,9 @@ func (bp *BoundsProver) ProveNonZero(at ssa.Instruction, v ssa.Value) (bool, str
 		if (ne[0].base == l.base && ne[1].base == "" && ne[1].off-ne[0].off == -l.off+0) || (ne[1].base == l.base && ne[0].base == "") {
 			return true, "guarded by != 0"
 		}
+	}
+	if ok, why := nonZeroPathwise(at, v); ok {
+		return true, "divisor non-zero: " + why
 	}
 	return false, "no dominating fact excludes zero for " + linStr(l)
 }
